@@ -107,6 +107,17 @@ def handle (p : List Sexp) : String :=
         if decide (InLiteralRegion w a b) then answer impl spec "in_literal_list_ignores_collation"
         else answer impl spec
       | _, _ => answer "bad-case"
+    | "sqlhash", [x, y, z, m] =>
+      match x.bytes?, y.bytes?, z.bytes? with
+      | some x, some y, some z =>
+        let w := mkW (parseAssoc m)
+        let rows := [nats x, nats y, nats z]
+        let y := nats y
+        let impl := ",".intercalate (sqlHashImpl w rows y)
+        let spec := ",".intercalate (sqlHashSpec w rows y)
+        if rows.any (fun r => decide (InLiteralRegion w r y)) then answer impl spec "in_literal_list_ignores_collation"
+        else answer impl spec
+      | _, _, _ => answer "bad-case"
     | _, _ => answer "bad-case"
   | _ => answer "bad-case"
 
